@@ -4,6 +4,7 @@ import (
 	"bytes"
 	"encoding/binary"
 	"errors"
+	"fmt"
 	"github.com/bolkedebruin/rdpgw/cmd/rdpgw/transport"
 	"io"
 	"log"
@@ -22,43 +23,33 @@ type RedirectFlags struct {
 	EnableAll  bool
 }
 
-// readMessage parses and defragments a packet from a Transport. It returns
-// at most the bytes that have been reported by the packet
-func readMessage(in transport.Transport) (pt int, n int, msg []byte, err error) {
-	fragment := false
-	index := 0
-	buf := make([]byte, 4096)
+// errFragment is returned by readHeader when more data is needed to complete the packet
+var errFragment = errors.New("fragment received")
 
+// readMessage parses and defragments a packet from a Transport. It returns
+// at most the bytes that have been reported by the packet. A packet can be
+// spread over any number of transport reads and a transport read can hold more
+// than one packet: pending holds the bytes that have been read from the
+// transport but not been returned yet.
+func readMessage(in transport.Transport, pending *[]byte) (pt int, n int, msg []byte, err error) {
 	for {
+		packetType, sz, packet, err := readHeader(*pending)
+		if err == nil {
+			*pending = (*pending)[sz:]
+			if len(*pending) == 0 {
+				*pending = nil
+			}
+			return int(packetType), int(sz), packet, nil
+		}
+		if !errors.Is(err, errFragment) {
+			return 0, 0, []byte{0, 0}, err
+		}
+
 		size, pkt, err := in.ReadPacket()
 		if err != nil {
 			return 0, 0, []byte{0, 0}, err
 		}
-
-		// check for fragments
-		var pt uint16
-		var sz uint32
-		var msg []byte
-
-		if !fragment {
-			pt, sz, msg, err = readHeader(pkt[:size])
-			if err != nil {
-				fragment = true
-				index = copy(buf, pkt[:size])
-				continue
-			}
-			index = 0
-		} else {
-			fragment = false
-			pt, sz, msg, err = readHeader(append(buf[:index], pkt[:size]...))
-			// header is corrupted even after defragmenting
-			if err != nil {
-				return 0, 0, []byte{0, 0}, err
-			}
-		}
-		if !fragment {
-			return int(pt), int(sz), msg, nil
-		}
+		*pending = append(*pending, pkt[:size]...)
 	}
 }
 
@@ -79,7 +70,7 @@ func createPacket(pktType uint16, data []byte) (packet []byte) {
 func readHeader(data []byte) (packetType uint16, size uint32, packet []byte, err error) {
 	// header needs to be 8 min
 	if len(data) < 8 {
-		return 0, 0, nil, errors.New("header too short, fragment likely")
+		return 0, 0, nil, fmt.Errorf("header too short: %w", errFragment)
 	}
 	r := bytes.NewReader(data)
 	binary.Read(r, binary.LittleEndian, &packetType)
@@ -90,7 +81,7 @@ func readHeader(data []byte) (packetType uint16, size uint32, packet []byte, err
 		return packetType, size, nil, errors.New("reported packet size smaller than header")
 	}
 	if len(data) < int(size) {
-		return packetType, size, data[8:], errors.New("data incomplete, fragment received")
+		return packetType, size, data[8:], fmt.Errorf("data incomplete: %w", errFragment)
 	}
 	return packetType, size, data[8:size], nil
 }
